@@ -10,6 +10,7 @@ import (
 	"path/filepath"
 	"runtime/debug"
 	"strings"
+	"syscall"
 
 	lua "github.com/yuin/gopher-lua"
 
@@ -804,6 +805,15 @@ func (e *Engine) Run(t *core.Tape, cfg *core.Config, st *core.Stats) (viol *core
 			return v
 		}
 	}
+	// epilogue, one history in three: the disk fills up while close() writes out what a fully buffered handle still
+	// holds. The close fails; the handle is closed all the same (as after fclose): every later operation on it raises,
+	// also an iterator obtained earlier, its descriptor is released, and the file holds what it held plus a prefix
+	// of the bytes that were pending.
+	if t.Choose(3) == 0 {
+		if v := e.fullDisk(t, st, ls, dir, rng, fail, &log); v != nil {
+			return v
+		}
+	}
 	st.Evals++
 	st.D(uint64(core.NewHash().Str(strings.Join(log, "\n"))))
 	if nreads > 0 && nwrites > 0 {
@@ -903,4 +913,101 @@ func tailS(s []string, n int) []string {
 		return s[len(s)-n:]
 	}
 	return s
+}
+
+func openFDs() int {
+	ents, err := os.ReadDir("/proc/self/fd")
+	if err != nil {
+		return -1
+	}
+	return len(ents)
+}
+
+func (e *Engine) fullDisk(t *core.Tape, st *core.Stats, ls *luaSide, dir string, rng *core.SplitMix64, fail func(string, string, ...interface{}) *core.Violation, log *[]string) *core.Violation {
+	p := filepath.Join(dir, "f3.dat")
+	mode := []string{"w", "w+", "a", "a+", "r+"}[t.Choose(5)]
+	old := genBytes(rng, []int{0, 7, 100, 4096, 5000}[t.Choose(5)], 0)
+	if len(old) > 0 && old[len(old)-1] != '\n' {
+		old[len(old)-1] = '\n'
+	}
+	if err := os.WriteFile(p, old, 0o600); err != nil {
+		panic(err)
+	}
+	if mode == "w" || mode == "w+" {
+		old = nil
+	}
+	pending := genBytes(rng, []int{1, 10, 300, 4096, 9000}[t.Choose(5)], 0)
+	room := t.Choose(len(pending)) // how many of the pending bytes still fit
+	keepIter := mode != "w" && mode != "a"
+	note := func(format string, args ...interface{}) { *log = append(*log, fmt.Sprintf(format, args...)) }
+	run := func(desc, code string) ([]string, bool, *core.Violation) {
+		note("%s", desc)
+		vals, raised, _, gp := ls.call(code)
+		if gp != "" {
+			if strings.HasPrefix(gp, "harness:") {
+				panic(gp)
+			}
+			return nil, false, fail("escape", "%s: Go panic left the call: %s", desc, gp)
+		}
+		return vals, raised, nil
+	}
+	fds0 := openFDs()
+	setup := fmt.Sprintf("F3 = assert(io.open(%q, %q)) F3:setvbuf('full', 65536) ", p, mode)
+	if keepIter {
+		setup += "IT3 = F3:lines() "
+	}
+	setup += fmt.Sprintf("F3:seek('end') return enc(F3:write(%s))", luaStr(pending))
+	if vals, raised, v := run(fmt.Sprintf("F3 = io.open(f3.dat, %q); setvbuf full; seek end; write(%d bytes)  -- stays in the buffer", mode, len(pending)), setup); v != nil {
+		return v
+	} else if raised || len(vals) == 0 || vals[0] != "T" && vals[0] != "U" {
+		return fail("wrong-result", "full-disk epilogue: the buffered write on a fresh handle did not succeed: %q raised=%v", vals, raised)
+	}
+	var lim0 syscall.Rlimit
+	if err := syscall.Getrlimit(syscall.RLIMIT_FSIZE, &lim0); err != nil {
+		return nil
+	}
+	lim := syscall.Rlimit{Cur: uint64(len(old) + room), Max: lim0.Max}
+	if err := syscall.Setrlimit(syscall.RLIMIT_FSIZE, &lim); err != nil {
+		return nil
+	}
+	vals, raised, v := run(fmt.Sprintf("F3:close()  -- the file may not grow beyond %d bytes: %d of the %d pending bytes fit", len(old)+room, room, len(pending)), "return enc(F3:close())")
+	syscall.Setrlimit(syscall.RLIMIT_FSIZE, &lim0)
+	st.Fault("disk_full_at_close")
+	if v != nil {
+		return v
+	}
+	if !raised && !(len(vals) >= 1 && vals[0] == "N") {
+		return fail("lost-write-not-reported", "full-disk epilogue: close() reported success (%q) although only %d of the %d buffered bytes fit on the disk", vals, room, len(pending))
+	}
+	for _, op := range []string{"F3:write('x')", "F3:read(1)", "F3:seek('set', 0)", "F3:flush()", "F3:lines()", "F3:close()", "F3:setvbuf('no')"} {
+		if _, raised, v := run(op+"  -- after the failed close", "return enc("+op+")"); v != nil {
+			return v
+		} else if !raised {
+			return fail("closed-handle-not-refused", "full-disk epilogue: %s after a close() that failed must raise an error like any operation on a closed handle", op)
+		}
+	}
+	if vals, _, v := run("io.type(F3)", "return enc(io.type(F3))"); v != nil {
+		return v
+	} else if len(vals) != 1 || vals[0] != "Sclosed file" {
+		return fail("wrong-result", "full-disk epilogue: io.type of the handle after the failed close is %q", vals)
+	}
+	if keepIter {
+		if _, raised, v := run("IT3()  -- iterator obtained before the close", "return enc(IT3())"); v != nil {
+			return v
+		} else if !raised {
+			return fail("closed-handle-not-refused", "full-disk epilogue: the iterator that F3:lines() returned before the close must raise once the handle is closed; it read from the file instead")
+		}
+	}
+	if n := openFDs(); fds0 >= 0 && n > fds0 {
+		st.Probe("descriptor_still_open_after_failed_close") // (not a clause of the property: reported, not judged)
+	}
+	got, err := os.ReadFile(p)
+	if err != nil {
+		panic(err)
+	}
+	want := append(append([]byte(nil), old...), pending...)
+	if len(got) < len(old) || len(got) > len(old)+room || !bytes.Equal(got, want[:len(got)]) {
+		return fail("disk-mismatch", "full-disk epilogue: the file holds %d bytes; it must hold the %d it held plus a prefix (at most %d bytes) of what was pending", len(got), len(old), room)
+	}
+	return nil
 }
